@@ -151,6 +151,9 @@ ndistinct = sym('ndistinct', (T,), I, lambda v: int(len(_np.unique(v))))
 
 of_list = sym('of_list', (_Ref,), T, None)            # ndarray holding the numbers of a python list
 
+lenT = sym('lenT', (T,), I, lambda a: len(a))
+wit = sym('wit', (T,), I, None)                        # index of a true entry of a boolean vector (when there is one)
+
 # ---- spec functions (contract vocabulary)
 mdist = sym('mdist', (T, T, T), R,                         # d_L(x, y) = || L (x - y) ||_2
             lambda L, x, y: float(_np.sqrt(((L @ (x - y)) ** 2).sum())))
@@ -266,6 +269,14 @@ ax('mv_sub', 'math', [L, x, y], sub(mv(L, x), mv(L, y)) == mv(L, sub(x, y)), [z3
    lean='mulVec_sub', gen=dict(L='mat(k,d)', x='vec(d)', y='vec(d)'))
 ax('vmax_abs_nonneg', 'math', [a], vmax(absT(a)) >= 0, [z3.MultiPattern(vmax(absT(a)))], ['vmax', 'absT'], lean='max_abs_nonneg', gen=dict(a='vec(n)'))
 ax('eps_pos', 'math', [], EPS > 0, [], [], lean='machine epsilon is positive (definition)')
+# ---- lib: any() over comparison vectors (numpy/python semantics of any, abs, len at the element level)
+ax('any_elim', 'lib', [b], z3.Implies(anyT(b), z3.And(wit(b) >= 0, wit(b) < lenT(b), at1(b, wit(b)) != 0)), [z3.MultiPattern(anyT(b))], ['anyT'])
+for _n, _f in _cmpz.items():
+  ax('any_intro_%s' % _n, 'lib', [a, s, i], z3.Implies(z3.And(i >= 0, i < lenT(a), _f(at1(a, i), s)), anyT(cmps(_n)(a, s))),
+     [z3.MultiPattern(at1(a, i), cmps(_n)(a, s))], ['anyT', 'cmp_%s_s' % _n])
+  ax('len_cmp_%s' % _n, 'lib', [a, s], lenT(cmps(_n)(a, s)) == lenT(a), [z3.MultiPattern(lenT(cmps(_n)(a, s)))], ['lenT', 'cmp_%s_s' % _n])
+ax('len_abs', 'lib', [a], lenT(absT(a)) == lenT(a), [z3.MultiPattern(absT(a))], ['absT'])
+ax('at1_abs', 'lib', [a, i], at1(absT(a), i) == z3.If(at1(a, i) >= 0, at1(a, i), -at1(a, i)), [z3.MultiPattern(at1(a, i), absT(a))], ['at1', 'absT'])
 # ---- math: real sqrt
 ax('sqrt_nonneg', 'math', [s], sqrt(s) >= 0, [z3.MultiPattern(sqrt(s))], ['sqrt'], lean='Real.sqrt_nonneg', gen=dict(s='real'))
 ax('sqrt_sq', 'math', [s], z3.Implies(s >= 0, sqrt(s) * sqrt(s) == s), [z3.MultiPattern(sqrt(s))], ['sqrt'],
